@@ -96,6 +96,11 @@ type Op struct {
 	Cookie   uint64 `json:",omitempty"`
 	Dircount uint32 `json:",omitempty"`
 	Mode     int    `json:",omitempty"` // CREATE mode
+	SetPerm  bool   `json:",omitempty"` // sattr3.mode
+	Perm     uint32 `json:",omitempty"`
+	SetIDs   bool   `json:",omitempty"` // sattr3.uid / gid
+	UidV     uint32 `json:",omitempty"`
+	GidV     uint32 `json:",omitempty"`
 	Data     []byte `json:"-"`          // materialised WRITE data
 }
 
@@ -118,6 +123,12 @@ func (o *Op) String() string {
 		if o.SetSize {
 			s += fmt.Sprintf(" size=%d", o.Size)
 		}
+		if o.SetPerm {
+			s += fmt.Sprintf(" perm=%o", o.Perm)
+		}
+		if o.SetIDs {
+			s += fmt.Sprintf(" uid=%d gid=%d", o.UidV, o.GidV)
+		}
 		if o.SetAtime != 0 || o.SetMtime != 0 {
 			s += fmt.Sprintf(" atime=%d/%v mtime=%d/%v", o.SetAtime, o.Atime, o.SetMtime, o.Mtime)
 		}
@@ -131,6 +142,12 @@ func (o *Op) String() string {
 		s += fmt.Sprintf(" mode=%d", o.Mode)
 		if o.SetSize {
 			s += fmt.Sprintf(" size=%d", o.Size)
+		}
+		if o.SetAtime != 0 || o.SetMtime != 0 {
+			s += fmt.Sprintf(" atime=%d/%v mtime=%d/%v", o.SetAtime, o.Atime, o.SetMtime, o.Mtime)
+		}
+		if o.SetPerm {
+			s += fmt.Sprintf(" perm=%o", o.Perm)
 		}
 	}
 	return s
@@ -175,6 +192,7 @@ type Res struct {
 	Size      uint64
 	Fileid    uint64
 	Nlink     uint32
+	Attrs     string // the remaining attribute fields (mode, nlink, uid, gid, rdev, fsid, ctime) for live-vs-restart comparison
 	Atime     [2]uint32
 	Mtime     [2]uint32
 	Data      []byte
@@ -816,6 +834,17 @@ func (m *Model) createEffect(op *Op, dir *MObj) effect {
 				d.add("CREATE with initial size %d: the new file has size %d (announced maxfilesize %d)", op.Size, r.Size, m.Lim.MaxFileSize)
 			}
 		}
+		if r != nil && r.HasAttr && op.K != OpSetattr {
+			// initial times in a creation may be honoured or ignored (this server
+			// ignores them); if the reply shows the client's value it has been
+			// honoured and must stay (later GETATTRs, restarts)
+			if op.SetAtime == 2 && r.Atime == op.Atime {
+				n.AtimeC, n.Atime = true, op.Atime
+			}
+			if op.SetMtime == 2 && r.Mtime == op.Mtime {
+				n.MtimeC, n.Mtime = true, op.Mtime
+			}
+		}
 		if r != nil {
 			what := op.K.String() + " " + shortName(op.Name)
 			if r.FH == nil {
@@ -985,6 +1014,7 @@ type DumpEnt struct {
 	Fileid uint64
 	Atime  [2]uint32
 	Mtime  [2]uint32
+	Attrs  string // mode, nlink, uid, gid, rdev, fsid, ctime as the server reports them (not predicted; compared live vs restart)
 	List   string // directories: names, file ids and cookies in listing order
 }
 
